@@ -2498,6 +2498,23 @@ func (p *Parser) parseJSONLiteral(id token.Token) *ast.JSONLiteral {
 	}
 }
 
+// lookaheadQueryStart reports whether the current token starts a query expression:
+// SELECT, FROM (pipe syntax), or WITH followed by a CTE name (WITH followed by "(" is a WITH expression).
+func (p *Parser) lookaheadQueryStart() bool {
+	switch p.Token.Kind {
+	case "SELECT", "FROM":
+		return true
+	case "WITH":
+		lexer := p.Lexer.Clone()
+		defer func() {
+			p.Lexer = lexer
+		}()
+		p.nextToken()
+		return p.Token.Kind != "("
+	}
+	return false
+}
+
 func (p *Parser) lookaheadSubQuery() bool {
 	lexer := p.Lexer.Clone()
 	defer func() {
@@ -2509,8 +2526,8 @@ func (p *Parser) lookaheadSubQuery() bool {
 	}
 
 	p.nextToken()
-	// (SELECT ... indicates subquery.
-	if p.Token.Kind == "SELECT" {
+	// (SELECT ..., (WITH name AS ... and (FROM ... indicate subquery.
+	if p.lookaheadQueryStart() {
 		return true
 	}
 
@@ -2520,7 +2537,7 @@ func (p *Parser) lookaheadSubQuery() bool {
 		nest++
 		p.nextToken()
 	}
-	if nest == 0 || p.Token.Kind != "SELECT" {
+	if nest == 0 || !p.lookaheadQueryStart() {
 		return false
 	}
 
